@@ -34,7 +34,7 @@ def variants(full):
     vs += [("nest",), ("loop",), ("loopu",)]
     if not full:
         keep = {("ab", 0, 0), ("ab", 1, 0), ("ab", 2, 1), ("ab", 3, 2), ("ab", 4, 1), ("ab", 0, 3), ("ab", 2, 2),
-                ("ab", 1, 3), ("ab", 3, 0), ("nest",), ("loop",)}
+                ("nest",), ("loop",)}
         vs = [v for v in vs if v in keep]
     return vs
 
@@ -222,6 +222,9 @@ def run(ctx):
     D = ctx.size(3, 4)
     vs = variants(full=True)
     vs_deep = variants(full=ctx.tier == "thorough")
+    if ctx.tier == "thorough":
+        # depth 4 over 19 of the 23 variants (130 321 chains) keeps the thorough tier inside its time budget
+        vs_deep = [v for v in vs_deep if v not in {("ab", 1, 1), ("ab", 4, 3), ("ab", 2, 0), ("ab", 0, 2)}]
     srcs = {}
     tmpl = {}
     for lvl in range(4):
@@ -262,7 +265,7 @@ def run(ctx):
 
     # ---------------- random hierarchies
     g = G.HGen(ctx.rng, max_depth=ctx.size(4, 6))
-    hs = [g.hierarchy() for _ in range(ctx.size(2500, 40000))]
+    hs = [g.hierarchy() for _ in range(ctx.size(1800, 40000))]
     run_batch(ctx, jinja2, hs, blocks_every=3)
 
     # ---------------- hypothesis probe: duplicate block names
